@@ -735,6 +735,39 @@ def gen_valtypes(repo, out, report):
     return {'parse_arms': len(parse), 'emit_arms': len(emit)}
 
 
+def gen_parse_skeleton(repo, out, report):
+    """G14: the skeleton of Module::parse: under which Payload arm / condition which validator method and which parse_* step runs, in order,
+    and the steps after the payload loop.  Pinned by a theorem (Proofs/ParsePinned.v): Model/ParseM.v [parse_sec] / [parseM] follow it."""
+    p, t = src_tree(repo, 'src/module/mod.rs')
+    b = fn_body(t, 'parse')
+    if b is None: raise Refuse('Module::parse not found')
+    def ev(items, i):
+        x = items[i]
+        if isinstance(x, Tok) and x.k == 'id' and i >= 2 and is_p(items[i - 1], '.') and isinstance(items[i - 2], Tok) and i + 1 < len(items) and is_g(items[i + 1], '()'):
+            recv = items[i - 2].s
+            if recv == 'validator': return 'validator.' + x.s
+            if recv == 'ret' and (x.s.startswith('parse_') or x.s in ('declare_local_functions', 'reserve_data')): return 'ret.' + x.s
+            if recv == 'customs' and x.s == 'add': return 'customs.add'
+            if recv == 'producers' and x.s == 'add_processed_by': return 'producers.add_processed_by'
+            if recv in ('name_sections', 'debug_sections') and x.s == 'push': return recv + '.push'
+        if is_id(x, 'ret') and i + 3 < len(items) and is_p(items[i + 1], '.') and isinstance(items[i + 2], Tok) and is_p(items[i + 3], '=') and not (i + 4 < len(items) and is_p(items[i + 4], '=')):
+            return 'ret.' + items[i + 2].s + '='
+        if isinstance(x, Tok) and x.s in ('bail', 'bail!'): return 'bail'
+        if is_id(x, 'on_parse') and i + 1 < len(items) and is_g(items[i + 1], '()'): return 'on_parse(..)'
+        return None
+    sk = []; skeleton(b.items, [], sk, ev)
+    def coq_list(l): return '[' + ';\n   '.join('("%s", "%s")' % (a.replace('"', "'").replace('(*', '( *'), c.replace('"', "'")) for a, c in l) + ']'
+    o = ['(* GENERATED by /verif/translator/gen_more.py (G14): the skeleton of Module::parse -- do not edit *)',
+         'From Coq Require Import List String. Import ListNotations. Open Scope string_scope.',
+         'Definition parse_skeleton : list (string * string) :=\n  ' + coq_list(sk) + '.']
+    content = '\n'.join(o) + '\n'
+    path = os.path.join(out, 'ParseSkeleton.v')
+    try:
+        if open(path).read() != content: open(path, 'w').write(content)
+    except OSError: open(path, 'w').write(content)
+    return {'steps': len(sk)}
+
+
 def run(repo, out, report, g):
     try:
         report['attrs'] = gen_attrs(repo, out, report)
@@ -745,6 +778,7 @@ def run(repo, out, report, g):
         report['gc_skeleton'] = gen_skeletons(repo, out, report)
         report['config_emit'] = gen_config_emit(repo, out, report)
         report['valtypes'] = gen_valtypes(repo, out, report)
+        report['parse_skeleton'] = gen_parse_skeleton(repo, out, report)
     except Refuse as e:
         import gen
         raise gen.Refuse(str(e))
